@@ -65,7 +65,7 @@ PROPS = {
         "assumptions": ["fair scheduling by the Go runtime for progress", "real probes and HTTP transports replaced by scripted ones"],
     },
     "C10": {
-        "proof_files": ["Proofs/ConfigFacts.v"],
+        "proof_files": ["Proofs/ConfigFacts.v", "Proofs/ForwarderLabels.v"],
         "runs": [{"engine": "forwarder", "args": [], "n_quick": 600, "n_thorough": 60000, "netns": True},
                  {"engine": "daemon", "args": ["-mode", "fwd"], "n_quick": 30, "n_thorough": 1500, "netns": True}],
         "trivial_tags": [r"^default$"],
